@@ -206,3 +206,41 @@ fn c11_cfg_accessors() {
     kani::cover!(c.chunk_max_records.is_none(), "default limit");
     core::mem::forget(c);
 }
+
+// The head snapshot WRITTEN to the new chunk file at a rotation is the state at
+// that moment, every field of it (vote and user data present here), byte for
+// byte the canonical State frame.
+// @harness name=c11_rotation_head_bytes prop=C11 tier=quick timeout=1500 fs=128
+env_proof! {
+    unwind = 24, rot = ghost, crc = real,
+    fn c11_rotation_head_bytes() {
+        use crate::kani_support::image::Img;
+        let cfg = mk_config(None, None, None, None);
+        let mut rl: RaftLog<RTypes> = open_empty(cfg);
+        gfs::fs().track_bytes = true;
+        let u: u8 = kani::any();
+        rl.log_state_mut().user_data = Some(u);
+        let v: Id = kani::any();
+        unsafe { crate::raft_log::wal::kani_h_a_wal::ROTATE_NOW = true; }
+        let r = rl.save_vote(v);
+        unsafe { crate::raft_log::wal::kani_h_a_wal::ROTATE_NOW = false; }
+        assert!(is_ok(r), "vote on an empty store refused");
+        let new_id = rl.wal.open.chunk.chunk_id();
+        let slot = gfs::find_chunk(new_id.0);
+        assert!(slot.is_some(), "no file created for the new chunk id");
+        let slot = slot.unwrap();
+        let mut im = Img::new(3, 0);
+        im.state(Some(v), None, None, None, Some(u));
+        let n = im.pos;
+        assert!(gfs::fs().files[slot].len == n as u64, "head snapshot has a different length than the canonical frame of the current state");
+        let mut i = 0;
+        while i < 22 {
+            if i < n {
+                assert!(gfs::bytes(slot)[i] == gfs::bytes(3)[i], "head snapshot of the new chunk differs from the state at rotation");
+            }
+            i += 1;
+        }
+        kani::cover!(true, "head snapshot compared");
+        core::mem::forget(rl);
+    }
+}
